@@ -200,6 +200,11 @@ func gen(g *common.Gen) {
 			g.Stat("op-face-table-round")
 		}
 		g.Op("adv")
+		if r.Chance(1, 2) {
+			// the life of a real face: registered, (destroyed through management,) a late route, transport closes
+			g.Op("life,%d,%s,%s", r.Intn(2), common.NameText(common.Pick(r, u)), common.NameText(common.Pick(r, u)))
+			g.Stat("op-face-life")
+		}
 		g.Op("par %s", strings.Join(threads, " | "))
 		// final observation: the whole RIB, strategy table, FIB and a lookup per universe name
 		g.Op("lr")
@@ -326,6 +331,45 @@ func decodeCommand(frame []byte) string {
 	return "?:verb"
 }
 
+// faceLife: a real NDNLPv2 face over an in-memory transport is started (registering itself), gets a route,
+// is optionally destroyed the way faces/destroy does it (taken out of the tables, transport left open), gets a
+// late route, and then its transport closes: the link service's own teardown must leave no route of the face.
+func faceLife(destroyFirst bool, n1, n2 enc.Name) string {
+	uri := func(s string) *defn.URI {
+		u := defn.DecodeURIString(s)
+		if u == nil || u.Canonize() != nil {
+			panic("harness: bad uri " + s)
+		}
+		return u
+	}
+	tr := face.MakeVerifC17Transport(uri("udp4://198.51.100.9:6363"), uri("udp4://198.51.100.1:6363"), defn.NonLocal, defn.MaxNDNPacketSize)
+	ls := face.MakeVerifC17Face(tr, face.MakeNDNLPLinkServiceOptions())
+	ls.Run(nil)
+	id := ls.FaceID()
+	rib.AddEncRoute(n1, &table.Route{FaceID: id, Origin: 0, Cost: 3, Flags: 1})
+	if destroyFirst {
+		face.FaceTable.Remove(id)
+	}
+	rib.AddEncRoute(n2, &table.Route{FaceID: id, Origin: 0, Cost: 4, Flags: 1})
+	tr.Close()
+	left := -1
+	for i := 0; i < 400; i++ { // up to 2 s for the link service's send goroutine to tear the face down
+		left = 0
+		for _, e := range rib.GetAllEntries() {
+			for _, rt := range e.GetRoutes() {
+				if rt.FaceID == id {
+					left++
+				}
+			}
+		}
+		if left == 0 && face.FaceTable.Get(id) == nil {
+			break
+		}
+		time.Sleep(5 * time.Millisecond)
+	}
+	return fmt.Sprintf("routes-left=%d registered=%v", left, face.FaceTable.Get(id) != nil)
+}
+
 func renderAdv() string {
 	var kv [][2]string
 	for h, c := range mgmt.VerifC16Advertised(rv) {
@@ -395,6 +439,8 @@ func doOp(op string) string {
 	switch f[0] {
 	case "adv":
 		return renderAdv()
+	case "life":
+		return faceLife(f[1] == "1", common.ParseNameText(f[2]), common.ParseNameText(f[3]))
 	case "reg":
 		if mgmtMode {
 			ribCommand("register", &mg.ControlArgs{Name: common.ParseNameText(f[1]), FaceId: utils.IdPtr(rf(common.Atou(f[2]))),
